@@ -23,9 +23,9 @@ func (C04) Plan(tier string) core.Plan {
 
 func (C04) Info() core.Info {
 	return core.Info{
-		Rule: "planned (derivable by construction) worlds with conversion chains of depth 1-4, diamonds, multi-input, struct-returning, built and run-once converters and noise; fault plan: 1-3 (party, k-th execution) entries return a fresh error value, including the target itself; 1-2 calls per history. Oracle over the ordered party log of each call: the first failing execution's error value is what Call returns (pointer identity), nothing runs after it, the target does not run; no error => no execution failed. Non-trivial: a fault actually fired; distinct = distinct (world shape incl. fault plan, event-log hash)",
+		Rule: "planned (derivable by construction) worlds with conversion chains of depth 1-4, diamonds, multi-input, struct-returning, built and run-once converters and noise; fault plan: 1-3 (party, k-th execution) entries return a fresh error value, including the target itself; 1-2 operations per history: Call, and sometimes the same resolution through Redefine + a call of the redefined function, or Convert. Oracle over the ordered party log of each call: the first failing execution's error value is what Call returns (pointer identity), nothing runs after it, the target does not run; no error => no execution failed. Non-trivial: a fault actually fired; distinct = distinct (world shape incl. fault plan, event-log hash)",
 		Assumptions: []string{"injected errors are unique pointer values, so identity comparison is exact"},
-		Probes:      []string{"fault_fired_conv_error", "c04_failed_at_depth_ge2", "c04_failed_multi_input", "c04_failed_struct_returning", "c04_failed_built", "c04_failed_once", "c04_target_error", "c04_no_error_calls", "s1_nonidentity_perms"},
+		Probes:      []string{"fault_fired_conv_error", "c04_failed_at_depth_ge2", "c04_failed_multi_input", "c04_failed_struct_returning", "c04_failed_built", "c04_failed_once", "c04_target_error", "c04_redefined_calls", "c04_no_error_calls", "s1_nonidentity_perms"},
 		Real:        realComponents,
 		Simulated:   simComponents,
 	}
@@ -53,15 +53,30 @@ func (C04) Gen(r *simrt.RNG, tier string) core.Case {
 		}
 		w.Faults = append(w.Faults, world.Fault{Kind: "conv_error", Party: pi, Nth: 1 + r.Intn(2)})
 	}
-	if r.Chance(1, 3) {
+	switch r.Intn(6) {
+	case 0, 1:
 		w.Ops = append(w.Ops, w.Ops[0])
+	case 2:
+		// the same resolution through a redefined function
+		var sub []int
+		for _, a := range w.Ops[0].Args {
+			if k := w.Args[a].Kind; !(k == world.ArgNamed || k == world.ArgTyped) || r.Chance(1, 3) {
+				sub = append(sub, a)
+			}
+		}
+		w.Ops = []world.Op{{Kind: world.OpRedefine, Target: 0, Args: sub}, {Kind: world.OpCallRedef, Redef: 0}}
+	case 3:
+		if len(w.Parties[0].In) > 0 {
+			w.Ops = append(w.Ops, world.Op{Kind: world.OpConvert, Type: w.Parties[0].In[0].Type, Args: w.Ops[0].Args})
+		}
 	}
 	return RCase{W: w}
 }
 
 func c04Valid(w world.World) bool {
-	for _, o := range w.Ops {
-		if o.Kind != world.OpCall {
+	for _, a := range w.Args {
+		switch a.Kind {
+		case world.ArgNilOpt, world.ArgNonFunc, world.ArgNilConv, world.ArgFilterIn, world.ArgFilterOut:
 			return false
 		}
 	}
@@ -101,7 +116,17 @@ func (C04) Run(c core.Case, ctx *core.Ctx) []core.Violation {
 			if res == nil {
 				continue
 			}
+			if w.Ops[oi].Kind == world.OpRedefine || res.ErrKind == "skipped" {
+				continue // planning executes nothing (C09)
+			}
 			tgt := w.Ops[oi].Target
+			switch w.Ops[oi].Kind {
+			case world.OpCallRedef:
+				tgt = w.Ops[w.Ops[oi].Redef].Target
+				ctx.St.Inc("c04_redefined_calls")
+			case world.OpConvert:
+				tgt = -1 // the synthesized identity target is not a party
+			}
 			if !res.Returned {
 				ctx.St.Inc("cross_c06_panic_or_divergence")
 				continue
